@@ -10,6 +10,7 @@ import (
 	"fmt"
 	"sort"
 	"strings"
+	"time"
 
 	"github.com/MichaelMure/git-bug/entities/bug"
 	"github.com/MichaelMure/git-bug/entities/common"
@@ -25,6 +26,7 @@ type CommentV struct {
 	Author  string
 	Message string
 	Files   []string
+	Time    string // the displayed creation time (Comment.FormatTime)
 }
 
 // TimelineV is one timeline entry of a view.
@@ -40,6 +42,12 @@ type TimelineV struct {
 	Title   string
 	Was     string
 	Status  string
+	// displayed times: comment kinds show when the comment was created, when it was last edited and
+	// the time of every history step; the other kinds show the time of their operation
+	CreatedAt    int64
+	LastEdit     int64
+	HistoryTimes []int64
+	Time         int64
 }
 
 // View is the observable content of a snapshot, with operation ids replaced by operation indices
@@ -51,6 +59,7 @@ type View struct {
 	Comments     []CommentV
 	Author       string
 	CreateTime   int64
+	EditTime     int64 // Snapshot.EditTime(): "the last time a bug was modified" = time of the last operation
 	Actors       []string
 	Participants []string
 	Timeline     []TimelineV
@@ -145,6 +154,8 @@ type Expect struct {
 	EffectiveEdits, IneffectiveEdits, MetaSet, MetaRefused, MetaNoTarget int
 	// MetaEmptyKept: a later set-metadata met a key whose existing value is the empty string (first value wins, empty included)
 	MetaEmptyKept, MetaEmptySet int
+	// OlderLaterEdits: effective edits whose timestamp is strictly smaller than that of the version they replace
+	OlderLaterEdits int
 }
 
 // Interpret is the reference interpreter, written from the statement of C10:
@@ -172,23 +183,26 @@ func Interpret(ops []opData) Expect {
 		e.Meta[i] = copyMap(op.meta)
 		e.OpKinds = append(e.OpKinds, op.kind)
 		effective := true
+		e.EditTime = op.time // the last operation in operation order
 		switch op.kind {
 		case "create":
 			e.Title = op.title
 			e.Author = op.author
 			e.CreateTime = op.time
 			commentOf[op.id] = len(e.Comments)
-			e.Comments = append(e.Comments, CommentV{Op: i, Author: op.author, Message: op.message, Files: op.files})
+			e.Comments = append(e.Comments, CommentV{Op: i, Author: op.author, Message: op.message, Files: op.files, Time: fmtTime(op.time)})
 			e.EditedComment = append(e.EditedComment, false)
 			timelineOf[op.id] = len(e.Timeline)
-			e.Timeline = append(e.Timeline, TimelineV{Kind: "create", Op: i, Author: op.author, Message: op.message, Files: op.files, History: []string{op.message}})
+			e.Timeline = append(e.Timeline, TimelineV{Kind: "create", Op: i, Author: op.author, Message: op.message, Files: op.files, History: []string{op.message},
+				CreatedAt: op.time, LastEdit: op.time, HistoryTimes: []int64{op.time}})
 			participants[op.author] = true
 		case "add":
 			commentOf[op.id] = len(e.Comments)
-			e.Comments = append(e.Comments, CommentV{Op: i, Author: op.author, Message: op.message, Files: op.files})
+			e.Comments = append(e.Comments, CommentV{Op: i, Author: op.author, Message: op.message, Files: op.files, Time: fmtTime(op.time)})
 			e.EditedComment = append(e.EditedComment, false)
 			timelineOf[op.id] = len(e.Timeline)
-			e.Timeline = append(e.Timeline, TimelineV{Kind: "comment", Op: i, Author: op.author, Message: op.message, Files: op.files, History: []string{op.message}})
+			e.Timeline = append(e.Timeline, TimelineV{Kind: "comment", Op: i, Author: op.author, Message: op.message, Files: op.files, History: []string{op.message},
+				CreatedAt: op.time, LastEdit: op.time, HistoryTimes: []int64{op.time}})
 			participants[op.author] = true
 		case "edit":
 			ci, ok := commentOf[op.target]
@@ -205,12 +219,18 @@ func Interpret(ops []opData) Expect {
 			e.Timeline[ti].Message = op.message
 			e.Timeline[ti].Files = op.files
 			e.Timeline[ti].History = append(e.Timeline[ti].History, op.message)
+			// the comment shows its latest edit in OPERATION order, whatever the clocks of the editors said
+			if op.time < e.Timeline[ti].LastEdit {
+				e.OlderLaterEdits++
+			}
+			e.Timeline[ti].LastEdit = op.time
+			e.Timeline[ti].HistoryTimes = append(e.Timeline[ti].HistoryTimes, op.time)
 		case "title":
 			e.Title = op.title
-			e.Timeline = append(e.Timeline, TimelineV{Kind: "title", Op: i, Author: op.author, Title: op.title, Was: op.was})
+			e.Timeline = append(e.Timeline, TimelineV{Kind: "title", Op: i, Author: op.author, Title: op.title, Was: op.was, Time: op.time})
 		case "status":
 			e.Status = op.status
-			e.Timeline = append(e.Timeline, TimelineV{Kind: "status", Op: i, Author: op.author, Status: op.status})
+			e.Timeline = append(e.Timeline, TimelineV{Kind: "status", Op: i, Author: op.author, Status: op.status, Time: op.time})
 		case "labels":
 			for _, l := range op.added {
 				labels[l] = true
@@ -218,7 +238,7 @@ func Interpret(ops []opData) Expect {
 			for _, l := range op.removed {
 				delete(labels, l)
 			}
-			e.Timeline = append(e.Timeline, TimelineV{Kind: "labels", Op: i, Author: op.author, Added: op.added, Removed: op.removed})
+			e.Timeline = append(e.Timeline, TimelineV{Kind: "labels", Op: i, Author: op.author, Added: op.added, Removed: op.removed, Time: op.time})
 		case "metadata":
 			effective = false
 			if ti, ok := opIndex[op.target]; ok && ti < i {
@@ -270,7 +290,7 @@ func Interpret(ops []opData) Expect {
 
 // Observe turns a real snapshot into a view. names maps identity ids to names.
 func Observe(s *bug.Snapshot, names map[entity.Id]string) View {
-	v := View{Title: s.Title, Status: s.Status.String(), Labels: labelsOf(s.Labels), CreateTime: s.CreateTime.Unix()}
+	v := View{Title: s.Title, Status: s.Status.String(), Labels: labelsOf(s.Labels), CreateTime: s.CreateTime.Unix(), EditTime: s.EditTime().Unix()}
 	if s.Author != nil {
 		v.Author = names[s.Author.Id()]
 	}
@@ -293,7 +313,7 @@ func Observe(s *bug.Snapshot, names map[entity.Id]string) View {
 		return names[a.Id()]
 	}
 	for _, c := range s.Comments {
-		cv := CommentV{Op: idx(c.CombinedId()), Message: c.Message, Files: hashes(c.Files)}
+		cv := CommentV{Op: idx(c.CombinedId()), Message: c.Message, Files: hashes(c.Files), Time: c.FormatTime()}
 		if c.Author != nil {
 			cv.Author = who(c.Author)
 		}
@@ -315,31 +335,40 @@ func Observe(s *bug.Snapshot, names map[entity.Id]string) View {
 		}
 		return out
 	}
+	histTimes := func(h []bug.CommentHistoryStep) []int64 {
+		var out []int64
+		for _, s := range h {
+			out = append(out, int64(s.UnixTime))
+		}
+		return out
+	}
 	for _, it := range s.Timeline {
 		t := TimelineV{Op: idx(it.CombinedId())}
 		switch x := it.(type) {
 		case *bug.CreateTimelineItem:
 			t.Kind, t.Message, t.Files, t.History = "create", x.Message, hashes(x.Files), hist(x.History)
+			t.CreatedAt, t.LastEdit, t.HistoryTimes = int64(x.CreatedAt), int64(x.LastEdit), histTimes(x.History)
 			if x.Author != nil {
 				t.Author = who(x.Author)
 			}
 		case *bug.AddCommentTimelineItem:
 			t.Kind, t.Message, t.Files, t.History = "comment", x.Message, hashes(x.Files), hist(x.History)
+			t.CreatedAt, t.LastEdit, t.HistoryTimes = int64(x.CreatedAt), int64(x.LastEdit), histTimes(x.History)
 			if x.Author != nil {
 				t.Author = who(x.Author)
 			}
 		case *bug.SetTitleTimelineItem:
-			t.Kind, t.Title, t.Was = "title", x.Title, x.Was
+			t.Kind, t.Title, t.Was, t.Time = "title", x.Title, x.Was, int64(x.UnixTime)
 			if x.Author != nil {
 				t.Author = who(x.Author)
 			}
 		case *bug.SetStatusTimelineItem:
-			t.Kind, t.Status = "status", x.Status.String()
+			t.Kind, t.Status, t.Time = "status", x.Status.String(), int64(x.UnixTime)
 			if x.Author != nil {
 				t.Author = who(x.Author)
 			}
 		case *bug.LabelChangeTimelineItem:
-			t.Kind, t.Added, t.Removed = "labels", labelsOf(x.Added), labelsOf(x.Removed)
+			t.Kind, t.Added, t.Removed, t.Time = "labels", labelsOf(x.Added), labelsOf(x.Removed), int64(x.UnixTime)
 			if x.Author != nil {
 				t.Author = who(x.Author)
 			}
@@ -419,6 +448,9 @@ func compareViews(a, b View) []Diff {
 	if a.Author != b.Author || a.CreateTime != b.CreateTime {
 		add("author", "author/create time", fmt.Sprint(a.Author, a.CreateTime), fmt.Sprint(b.Author, b.CreateTime))
 	}
+	if a.EditTime != b.EditTime {
+		add("edit-time", "time of the last modification", a.EditTime, b.EditTime)
+	}
 	if !eqStrings(a.Actors, b.Actors) {
 		add("actors", "actors", a.Actors, b.Actors)
 	}
@@ -436,6 +468,9 @@ func compareViews(a, b View) []Diff {
 			}
 			if x.Message != y.Message {
 				add("comment.message", fmt.Sprintf("comment %d message", i), x.Message, y.Message)
+			}
+			if x.Time != y.Time {
+				add("comment.time", fmt.Sprintf("comment %d creation time", i), x.Time, y.Time)
 			}
 			if !eqStrings(x.Files, y.Files) {
 				add("comment.files", fmt.Sprintf("comment %d files", i), x.Files, y.Files)
@@ -457,6 +492,15 @@ func compareViews(a, b View) []Diff {
 			}
 			if !eqStrings(x.Files, y.Files) {
 				add("timeline.files", fmt.Sprintf("timeline %d files", i), x.Files, y.Files)
+			}
+			if x.CreatedAt != y.CreatedAt || x.Time != y.Time {
+				add("timeline.time", fmt.Sprintf("timeline %d creation/operation time", i), fmt.Sprint(x.CreatedAt, x.Time), fmt.Sprint(y.CreatedAt, y.Time))
+			}
+			if x.LastEdit != y.LastEdit {
+				add("timeline.last-edit", fmt.Sprintf("timeline %d last edit time", i), x.LastEdit, y.LastEdit)
+			}
+			if fmt.Sprint(x.HistoryTimes) != fmt.Sprint(y.HistoryTimes) {
+				add("timeline.history-times", fmt.Sprintf("timeline %d history times", i), x.HistoryTimes, y.HistoryTimes)
 			}
 			if !eqStrings(x.History, y.History) {
 				add("timeline.history", fmt.Sprintf("timeline %d history", i), x.History, y.History)
@@ -529,6 +573,11 @@ func compareWithReference(got View, want Expect) []Diff {
 	return out
 }
 
+// fmtTime renders a unix time the way Comment.FormatTime displays it.
+func fmtTime(t int64) string {
+	return time.Unix(t, 0).Format("Mon Jan 2 15:04:05 2006 +0200")
+}
+
 func dedup(s []string) []string {
 	var out []string
 	for i, x := range s {
@@ -544,10 +593,11 @@ func (e Expect) Key() string {
 	var b strings.Builder
 	fmt.Fprintf(&b, "%s|%s|%v|", e.Title, e.Status, e.Labels)
 	for _, c := range e.Comments {
-		fmt.Fprintf(&b, "c%d:%s:%s:%v;", c.Op, c.Author, c.Message, c.Files)
+		fmt.Fprintf(&b, "c%d:%s:%s:%v:%s;", c.Op, c.Author, c.Message, c.Files, c.Time)
 	}
 	for _, t := range e.Timeline {
 		fmt.Fprintf(&b, "t%s:%d:%s:%v:%v:%v:%v:%s:%s:%s;", t.Kind, t.Op, t.Author, t.History, t.Files, t.Added, t.Removed, t.Title, t.Was, t.Status)
+		fmt.Fprintf(&b, "@%d:%d:%v:%d;", t.CreatedAt, t.LastEdit, t.HistoryTimes, t.Time)
 	}
 	am := make([]string, 0, 2)
 	for a := range e.ActorsMust {
